@@ -9,15 +9,15 @@ CHECKS = {
  "C18": dict(level=MC, design="§4 C18, Appendix A",
    technique="TLA+ spec Shutdown.tla model-checked with TLC (safety + liveness under weak fairness); every TLC behaviour forced on the real SIGINT handler / until_interrupt via scheduling points and on a real howl; events validated by Trace_Shutdown.tla",
    text="TLC proves within the constants that the interrupt protocol (handler: store/swap/wake; poll: accept/load/publish/re-check; wait group) never returns early and never loses the interrupt, and shows the counterexample without the re-check. Every interleaving TLC enumerates is then forced on the real code in a fresh process (real SIGINT, real closure, real poll) and every end-to-end arrival/signal/completion order is run against a real howl; the recorded events are judged by the trace spec. Right level: the property quantifies over schedules, which only exhaustive interleaving exploration settles.",
-   note="assumes rt_tokio/Linux, terminating sessions, wakers delivered by the runtime; trusted: ctrlc crate, tokio, the turn-taking controller in harness/src/sd.rs; bounds: <=3 arrivals, <=3 spurious wake-ups, <=2 signals"),
+   note="assumes rt_tokio/Linux, terminating sessions, wakers delivered by the runtime; trusted: ctrlc crate, tokio, the turn-taking controller in harness/src/sd.rs; bounds: <=3 arrivals, <=3 spurious wake-ups, <=2 signals; end-to-end runs also start with SIGINT ignored / handled by somebody else, and burst runs on a one-thread runtime require every connection the accept loop reports as accepted (hook event) to be served before howl returns"),
  "C03": dict(level=MC, design="§4 C03",
    technique="TLA+ spec RespHeaders.tla: TLC checks exhaustively that the header-map mechanism (slots/values/size, complete(), HEAD rule) refines the ideal response over all operation histories; the same histories and seeded random ones are replayed on a real Response (header block snapshotted after every operation, bytes through router+send re-parsed) and judged step by step by Trace_RespHeaders.tla",
    text="Within the bounds (all histories of <=4/5 operations over set/append/remove of standard and custom headers with values of different lengths, cookies, body kinds, drop_content, statuses; GET and HEAD) TLC proves that the modelled mechanism keeps `size` exact and emits each live header once; TLC's histories plus random ones (8-40 ops over all 37 user-settable standard headers) are executed on the real code and every intermediate header block and the final wire are judged by the TLA+ oracle `HeadersOK`/`WireOK`; buffer overruns are observed through the guarded capacity assertion. Right level: the property quantifies over operation histories.",
-   note="trusted: harness HTTP response parser, concretisation table, the capacity assertion hook; not compared: header order, Date value; framing headers only manipulated through body operations; 1xx/304 not generated"),
+   note="trusted: harness HTTP response parser, concretisation table, the capacity assertion hook; not compared: header order, Date value; framing headers only manipulated through body operations; 1xx/304 not generated; for a value with a line break only well-formedness, at-most-once and the absence of the injected line are asserted (any sanitisation fits); a standard name given by name is only touched by name within one history"),
  "C01": dict(level=MC, design="§4 C01",
    technique="TLA+ spec Router.tla: TLC checks the radix-tree mechanism (register/merge, compression, child sort, take_through, search) against the segment-wise oracle over all registration orders; TLC-built applications (exhaustive + -simulate) and seeded random ones are assembled on the real router and every request's observation is judged by Trace_Router.tla (AllowedHandlers, ExpectedParams) Composition: end-to-end runs of the real Session::manage over loopback serving TLC-built and random applications are validated event by event (cfg(ohkami_verif) events of the session loop, fang/handler log) against Server.tla by Trace_Server; unexplained `handler` events and DispatchInv count for this property.",
    text="Within the bounds TLC proves that the modelled tree dispatches every bounded path as the oracle allows, whatever the registration order, and shows the byte-prefix counterexample without the segment-boundary condition. Applications emitted by TLC (every order of <=2/3 routes of depth <=2, method subsets, one mount level; simulated trees of up to 3 applications) plus random ones are built through the public API on the real code; requests derived from the routes (instances, one byte more/less per segment, extra/missing/empty segments, trailing slashes, every method) are parsed by the real Request::read and handled by the real router; handler identity, params, status and HEAD body are judged in TLA+. The composition adds ~1 900 (quick) / ~7 000 (thorough) connections whose every event is a step of Server.tla.",
-   note="routes with <=2 params; where the text leaves backtracking / method shadowing open both outcomes are accepted; percent-escapes not generated here; trusted: harness application assembly and concretisation table, response parser"),
+   note="routes with <=2 params; where the text leaves backtracking / method shadowing open both outcomes are accepted; of percent-escapes only the escaped slash is generated (one segment, never equal to a static one; whether another escape makes a segment "identical" to a static one is not asserted); routes of the parent below its own mount prefix are included except the trees the framework refuses at start-up; trusted: harness application assembly and concretisation table, response parser"),
  "C04": dict(level=MC, design="§4 C04",
    technique="TLA+ spec Router.tla/RouterApp.tla: TLC checks that the fang lists of the finalised tree equal the applications covering each path (scope and onion order) for every registration order; TLC-built application trees with instrumented fangs are run on the real router and the enter/leave log of every request is judged against OnionTrace by Trace_Router.tla Composition: the same end-to-end traces validated against Server.tla (every enter/leave event must extend a prefix of an onion trace of the request; the onion is complete when Router::handle returns); unexplained enter/leave/handled events count for this property.",
    text="TLC proves within the bounds that with the inherit+guarded-merge compression every path is wrapped by exactly the fangs of the applications whose mount prefix covers it, outermost first, and shows the counterexample for the original merge rule. Application trees emitted by TLC (exhaustive 2 applications, simulated 3 applications with up to 2 fangs each, local fangs, param/static mount prefixes, one early-answering fang) and random ones are assembled on the real code with logging fangs; for every request (hits, misses inside/outside each mount, near misses of the prefix, unregistered methods) the log must equal the onion trace computed in TLA+. The composition adds ~1 900 (quick) / ~7 000 (thorough) connections whose fang events are stepped through Server.tla.",
